@@ -280,8 +280,43 @@ def rule_snapshot(ctx, _flow) -> RuleResult:
         made = [c for c in ast.walk(v.node) if isinstance(c, ast.Call) and call_name(c) in COPY_CALLS and (
             (call_name(c) == "copy_to_parent" and c.args and isinstance(c.args[0], ast.Name) and c.args[0].id == me)
             or (call_name(c) != "copy_to_parent" and isinstance(c.func, ast.Attribute) and (_is_super(c.func.value) or (isinstance(c.func.value, ast.Name) and c.func.value.id == me))))]
+        family = {f for f, _r in copy_functions(ctx)}
         if not made:
+            # a hook (template-method step) that is handed the copy: it runs after the copy exists, so any live read of .children it
+            # loops over (not the list its caller handed in) is late
+            if fn.name == "copy" or fn.name.startswith("copy_"):
+                continue
+            for lp in [n for n in ast.walk(v.node) if isinstance(n, (ast.For, ast.AsyncFor)) and isinstance(n.target, ast.Name)]:
+                reads = [x for o in [lp.iter] + [d for n in ast.walk(lp.iter) if isinstance(n, ast.Name) for d in fl.defs.get(n.id, [])]
+                         for x in ast.walk(o) if isinstance(x, ast.Attribute) and x.attr == "children"]
+                copies = [c for st in lp.body for c in ast.walk(st) if isinstance(c, ast.Call) and call_name(c) in COPY_CALLS]
+                if not copies or from_source(fl, lp.iter, roots, as_iter=True) is None:
+                    continue
+                ok = not reads
+                res.inst(f"{fn.qualname}:{lp.iter.lineno} (step run after the copy exists) copies the children it was handed, not the live .children: {ok}", nontrivial=True, ok=ok)
+                if not ok:
+                    res.find(fn.cls.name, fn.name, "the children to copy are read after the copy was created under the parent", f"{fn.module.relpath}:{lp.iter.lineno}",
+                             "this step runs when the copy already exists; with parent=<the group itself> the new entity is among .children: it is copied under itself, and so on")
             continue
+        # the children handed to a step of the copy (an overridable hook): the list must have been read before the copy was created
+        for c in ast.walk(v.node):
+            if not (isinstance(c, ast.Call) and isinstance(c.func, ast.Attribute) and isinstance(c.func.value, ast.Name) and c.func.value.id == me):
+                continue
+            m = fn.cls.lookup(c.func.attr)
+            if not m or m[1] != "method" or m[2] not in family or c.func.attr in COPY_CALLS:
+                continue
+            handed = [a for a in list(c.args) + [k.value for k in c.keywords] if fl.mentions_attr(a, "children") and from_source(fl, a, roots, as_iter=True) is not None]
+            if not handed:
+                continue
+            reads = [x for a in handed for o in [a] + [d for n in ast.walk(a) if isinstance(n, ast.Name) for d in fl.defs.get(n.id, [])]
+                     for x in ast.walk(o) if isinstance(x, ast.Attribute) and x.attr == "children"]
+            late = [r for r in reads for mk in made if fl.may_run_after(r, mk)] or [r for r in reads if any(x is r for a in handed for x in ast.walk(a)) and
+                                                                                   any(fl.may_run_after(c, mk) for mk in made)]
+            ok = not late
+            res.inst(f"{fn.qualname}:{c.lineno} children handed to {c.func.attr}(..) are read before the copy exists: {ok}", nontrivial=True, ok=ok)
+            if not ok:
+                res.find(fn.cls.name, fn.name, "the children to copy are read after the copy was created under the parent", f"{fn.module.relpath}:{c.lineno}",
+                         "copied with parent=<the group itself> the new entity is already among the .children handed on: it is copied under itself, and so on")
         made_names = {t.id for c in made for st in ast.walk(v.node) if isinstance(st, ast.Assign) and st.value is c for t in st.targets if isinstance(t, ast.Name)}
         for lp in [n for n in ast.walk(v.node) if isinstance(n, (ast.For, ast.AsyncFor, ast.comprehension))]:
             var = lp.target.id if isinstance(lp.target, ast.Name) else None
@@ -411,11 +446,12 @@ def rule_named_children(ctx, _flow) -> RuleResult:
         if fn.cls is None:
             continue
         v, fl = _flow(ctx, fn)
-        for lp in [n for n in ast.walk(v.node) if isinstance(n, (ast.For, ast.AsyncFor)) and isinstance(n.target, ast.Name)]:
+        for lp in [n for n in ast.walk(v.node) if isinstance(n, (ast.For, ast.AsyncFor, ast.comprehension)) and isinstance(n.target, ast.Name)]:
             if not fl.mentions_attr(lp.iter, "children") or from_source(fl, lp.iter, roots, as_iter=True) is None:
                 continue
             var = lp.target.id
-            for t in [x for st in lp.body for x in ast.walk(st) if isinstance(x, ast.Compare) and len(x.ops) == 1]:
+            filters = lp.ifs if isinstance(lp, ast.comprehension) else lp.body  # a comprehension's conditions decide which children go on
+            for t in [x for st in filters for x in ast.walk(st) if isinstance(x, ast.Compare) and len(x.ops) == 1]:
                 left, right = t.left, t.comparators[0]
                 names_side = next((b for a, b in ((left, right), (right, left))
                                    if any(isinstance(o, ast.Attribute) and o.attr == "name" and isinstance(o.value, ast.Name) and o.value.id == var for o in fl.origins_at(a))), None)
@@ -426,8 +462,7 @@ def rule_named_children(ctx, _flow) -> RuleResult:
                 if not consts:
                     continue
                 # does the test decide that the child is left out?  (guards a `continue`, or the copy call sits in the other branch)
-                up = par_if(v.node, t)
-                if up is None:
+                if not isinstance(lp, ast.comprehension) and par_if(v.node, t) is None:
                     continue
                 own = set()
                 for c in fn.cls.mro:
